@@ -9,7 +9,7 @@ PROPERTY = 'C03'
 LEVEL = 'fault_enumeration'
 RULE = ('the union corpus: every k-th program of the families of C01, C04/C05, C06, C07, C08, C09, C10, C11, C12, C13, C14, C16 '
         '(enumerated, strided, not sampled) plus the complete signal-race family (a victim waiting on a delay / already-true condition / '
-        'passed moment inside & and | / flag / lock / queue / borrow, inside 0-2 nested until-blocks whose notification is already '
+        'passed moment inside & and | / flag / lock / queue / borrow / holding a lock while closing an activity that queues for it, inside 0-2 nested until-blocks whose notification is already '
         'true, fires in the same step, fires later or never); each fault-free and with a cancel at every activation boundary of every '
         'live task (thorough: two cancels on short programs), until-interrupt and forceful close swept over every queue position. '
         'Oracle (monitors only): what leaves run() is nothing or an exception object scenario code created (or a Concurrent of such); '
@@ -39,6 +39,11 @@ def race_family():
         'get': ([['TRY', [['GET', 'q']]]], [['DO', 'putter', [['D', 2], ['PUT', 'q', 1]]]]),
         'borrow': ([['BORROW', 'r', {'a': 2}, [['D', 1]]]], [['DO', 'other', [['BORROW', 'r', {'a': 1}, [['D', 2]]]]]]),
         'scope': ([['SCOPE', 'vs', [['DO', 'g', [['D', 2]]], ['D', 1]]]], []),
+        # the holder of a lock itself ends (closes) an activity that is queueing for that lock
+        'lock-owner-closes-volatile': ([['LOCK', 'l', [['SCOPE', 'vs', [['DO', 'g', [['LOCK', 'l', [['D', 1]]]], {'volatile': True}],
+                                                                      ['D', 1]]], ['D', 1]]]], []),
+        'lock-owner-closes-until': ([['LOCK', 'l', [['UNTIL', 'vu', ['DELAY', 1], [['DO', 'g', [['LOCK', 'l', []]]], ['ETERNITY']]],
+                                                    ['D', 1]]]], [['DO', 'holder', [['D', 1], ['LOCK', 'l', [['D', 1]]]]]]),
     }
     notifs = [['GE', 0], ['DELAY', 1], ['F', 'C'], ['EQ', 2], ['DELAY', 3], ['ETERNITY'], ['F', 'A']]
     nests = [[]] + [[n] for n in notifs] + [[a, b] for a in notifs for b in notifs]
